@@ -16,8 +16,8 @@ ID = "C20"
 CASES = {"quick": 3000, "thorough": 40000}
 FLOOR = {"quick": 2500, "thorough": 35000}
 FLOOR_COUNTERS = {
-    "quick": {"lpr_values_judged": 20000, "cpr_values_judged": 8000, "rank_deficient_cases": 250, "single_env_structures": 1500},
-    "thorough": {"lpr_values_judged": 280000, "cpr_values_judged": 110000, "rank_deficient_cases": 3500, "single_env_structures": 20000},
+    "quick": {"tiny_regulariser_cases": 150, "lpr_values_judged": 20000, "cpr_values_judged": 8000, "rank_deficient_cases": 250, "single_env_structures": 1500},
+    "thorough": {"tiny_regulariser_cases": 2000, "lpr_values_judged": 280000, "cpr_values_judged": 110000, "rank_deficient_cases": 3500, "single_env_structures": 20000},
 }
 RULE = (
     "case = 1-15 training and 1-8 test structures of 1-8 environments (incl. single-environment structures), feature "
@@ -34,7 +34,8 @@ ASSUMPTIONS = [
 def gen(rng, tier, index):
     d = int(rng.integers(2, 11))
     deficient = bool(index % 10 == 0)
-    ntr = int(rng.integers(1, d)) if deficient else int(rng.integers(1, 16))
+    nearsing = bool(index % 10 == 1)  # fewer structures than features and a tiny regulariser
+    ntr = int(rng.integers(1, d)) if (deficient or nearsing) else int(rng.integers(1, 16))
     nte = int(rng.integers(1, 9))
     off = rng.normal(size=d) * float(gens.pick(rng, (0.0, 1.0)))
 
@@ -47,7 +48,7 @@ def gen(rng, tier, index):
     return {
         "Xtr": strucs(ntr),
         "Xte": strucs(nte),
-        "alpha": 1e-300 if deficient else float(10.0 ** rng.uniform(-8, 3)),
+        "alpha": 1e-300 if deficient else (float(10.0 ** rng.uniform(-11.5, -9.0)) if nearsing else float(10.0 ** rng.uniform(-8, 3))),
         "alpha2": float(10.0 ** rng.uniform(0.1, 2)),
         "comp_dims": comp_dims,
         "c": float(10.0 ** rng.uniform(-2, 2)),
@@ -68,7 +69,7 @@ def run(case, j):
 
     Xtr, Xte, alpha, comp = case["Xtr"], case["Xte"], case["alpha"], case["comp_dims"]
     d = Xtr[0].shape[1]
-    j.tag("rank-deficient" if case["deficient"] else "regular", f"components:{len(comp)}", f"dim:{d}")
+    j.tag("rank-deficient" if case["deficient"] else ("tiny-regulariser" if case["alpha"] < 1e-8 else "regular"), f"components:{len(comp)}", f"dim:{d}")
     with rt.FPTrap() as fp:
         LPR, rd = j.lib("lpr", lpr_fn, [x.copy() for x in Xtr], [x.copy() for x in Xte], alpha)
         CPR, LCPR, rd2 = j.lib("cpr", cpr_fn, [x.copy() for x in Xtr], [x.copy() for x in Xte], alpha, comp.copy())
@@ -84,7 +85,10 @@ def run(case, j):
     if case["deficient"]:
         j.note("rank_deficient_cases")
     cond = ev[-1] / max(ev[0], 1e-300)
+    rtol = max(1e-7, 300 * np.finfo(float).eps * cond)  # solve / pinv lose about eps x cond
     if cond > 1e10:
+        j.note("tiny_regulariser_cases")
+    if cond > 3e12:
         j.skip("ill-conditioned-covariance(values not judged)")
     else:
         edges = np.concatenate([[0], np.cumsum(comp)])
@@ -95,7 +99,7 @@ def run(case, j):
             want = 1.0 / q
             got = np.asarray(LPR[si])
             j.ok("LPR strictly positive and finite", bool(np.all(np.isfinite(got)) and np.all(got > 0)), got)
-            j.close("LPR == 1 / (x (S^T S + alpha I)^-1 x^T)", got[ok], want[ok], 1e-7 * want[ok])
+            j.close("LPR == 1 / (x (S^T S + alpha I)^-1 x^T)", got[ok], want[ok], rtol * want[ok])
             j.note("lpr_values_judged", int(ok.sum()))
             xm = X.mean(axis=0) / s
             for ci in range(len(comp)):
@@ -105,11 +109,11 @@ def run(case, j):
                 qc = np.einsum("ij,ij->i", xc, np.linalg.solve(M, xc.T).T)
                 okc = qc > 1e-12 * np.maximum((xc**2).sum(axis=1), 1e-300) / ev[-1]
                 gotc = np.asarray(LCPR[si])[:, ci]
-                j.close("LCPR == closed form restricted to the component's block", gotc[okc], 1.0 / qc[okc], 1e-7 / qc[okc])
+                j.close("LCPR == closed form restricted to the component's block", gotc[okc], 1.0 / qc[okc], rtol / qc[okc])
                 xmc = xm * msk
                 qa = float(xmc @ np.linalg.solve(M, xmc))
                 if qa > 1e-12 * max(float((xmc**2).sum()), 1e-300) / ev[-1]:
-                    j.close("CPR == closed form for the structure average", CPR[si, ci], 1.0 / qa, 1e-7 / qa)
+                    j.close("CPR == closed form for the structure average", CPR[si, ci], 1.0 / qa, rtol / qa)
                     j.ok("CPR strictly positive and finite", np.isfinite(CPR[si, ci]) and CPR[si, ci] > 0, CPR[si, ci])
                     j.note("cpr_values_judged")
                 if len(X) == 1 and okc[0]:
@@ -119,20 +123,20 @@ def run(case, j):
         c = case["c"]
         LPRc, _ = lpr_fn([c * x for x in Xtr], [c * x for x in Xte], alpha)
         for a, b in zip(LPR, LPRc):
-            j.close("LPR invariant under a common rescaling of all features", b, a, 1e-7 * np.abs(a))
+            j.close("LPR invariant under a common rescaling of all features", b, a, rtol * np.abs(a))
         CPRc, LCPRc, _ = cpr_fn([c * x for x in Xtr], [c * x for x in Xte], alpha, comp.copy())
-        j.close("CPR invariant under a common rescaling", CPRc, CPR, 1e-7 * np.abs(CPR))
+        j.close("CPR invariant under a common rescaling", CPRc, CPR, rtol * np.abs(CPR))
         a2 = alpha * case["alpha2"]
         LPR2, _ = lpr_fn([x.copy() for x in Xtr], [x.copy() for x in Xte], a2)
         for a, b in zip(LPR, LPR2):
-            j.ok("LPR non-decreasing in alpha", bool(np.all(b >= a * (1 - 1e-9))), (a, b))
+            j.ok("LPR non-decreasing in alpha", bool(np.all(b >= a * (1 - 1e-9 - rtol))), (a, b))
         CPR2, LCPR2, _ = cpr_fn([x.copy() for x in Xtr], [x.copy() for x in Xte], a2, comp.copy())
-        j.ok("CPR non-decreasing in alpha", bool(np.all(CPR2 >= CPR * (1 - 1e-9))))
+        j.ok("CPR non-decreasing in alpha", bool(np.all(CPR2 >= CPR * (1 - 1e-9 - rtol))))
         for a, b in zip(LCPR, LCPR2):
-            j.ok("LCPR non-decreasing in alpha", bool(np.all(b >= a * (1 - 1e-9))))
+            j.ok("LCPR non-decreasing in alpha", bool(np.all(b >= a * (1 - 1e-9 - rtol))))
         _, LC1, _ = cpr_fn([x.copy() for x in Xtr], [x.copy() for x in Xte], alpha, np.array([d]))
         for a, b in zip(LPR, LC1):
-            j.close("LCPR with a single component == LPR", np.asarray(b)[:, 0], a, 1e-9 * np.abs(a))
+            j.close("LCPR with a single component == LPR", np.asarray(b)[:, 0], a, (1e-9 + rtol * 1e-2) * np.abs(a))
         bad = fp.in_skmatter()
         j.ok("no invalid / divide-by-zero FP event inside skmatter on well-conditioned input", not bad, bad[:3])
     j.nontrivial = len(comp) > 1 or any(len(x) == 1 for x in Xte)
